@@ -2,6 +2,7 @@
 #![allow(dead_code)]
 mod core;
 mod dd;
+mod elem;
 mod exact;
 mod floatlayer;
 mod fp;
@@ -12,6 +13,7 @@ mod mem;
 mod memcheck;
 mod planparse;
 mod refdft;
+mod sched;
 mod util;
 mod checks;
 
